@@ -9,7 +9,8 @@ LEVEL = "proof"
 DESIGN_REF = "DESIGN.md §9 C18, §12.C18"
 COQ_TARGETS = ["Properties/C18", "Pins/C18"]
 THEOREMS = [("PdfV.Properties.C18", n) for n in
-            ["C18_missing_recognised", "C18_option_null", "C18_optional_null", "C18_deferred", "C18_required_err"]]
+            ["C18_missing_recognised", "C18_option_null", "C18_optional_null", "C18_deferred", "C18_required_err",
+             "C18_element_skipped", "C18_element_null", "C18_enums_resolve"]]
 ANCHORS = ["object/mod.rs", "file.rs", "pdf_derive"]
 MODES = ["dangling"]
 TRUSTED_BASE = ["coqc 8.16.1 kernel (vm_compute for the table lemma over the generated error-path constants)",
@@ -19,7 +20,8 @@ TRUSTED_BASE = ["coqc 8.16.1 kernel (vm_compute for the table lemma over the gen
 ASSUMPTIONS = ["the cross-reference table is modelled at the level of XRefTable::new / resolve_ref (entry kinds), the file parser belongs to C01/C02",
                "dictionary key order is not observable", "hand-written types other than Date/Rectangle/Matrix are not planted"]
 RULE = ("exhaustive over (derived struct, optional field whose type the model reads, dangling kind in {free entry, gap below /Size, "
-        "number = /Size, number > /Size}, holder in {the field itself, element of its array where the field is an optional array}, "
+        "number = /Size, number > /Size}, holder in {the field itself, element of its array (optional and required arrays; compared "
+        "with the array without that element)}, "
         "option set in {strict, tolerant}) in thorough, a stratified sample in quick; every case is a real file written by the "
         "specification-side writer; judged relationally as the property says (the dictionary with the planted reference must read "
         "exactly like the dictionary without the key) and against the Coq model; required fields must give an error naming the field; "
@@ -33,6 +35,14 @@ def S():
     if _S is None:
         _S = T.schemas()
     return _S
+
+
+def gen(rng):
+    """the writer of a name tree is todo!() (finding C15-c): a planted name tree would turn every write half of a case
+    into that panic, which is not what this property is about"""
+    G = T.Gen(S(), rng)
+    G.skip_hands = {"NameTree<Primitive>"}
+    return G
 
 
 RESOLVING = {0, 1, 2, 3, 4, 5, 6, 8, 21, 22, 23, 25, 26}
@@ -52,10 +62,10 @@ def holder_class(G, t):
     if c == 24:
         return holder_class(G, t[1:])
     if c in (31, 32):
-        return "no-resolve"
+        return "resolving"              # derived enums resolve before matching (fix C18-c)
     if c == 33:
         h = G.S.hands[t[1]]
-        return {"Date": "resolving", "Rectangle": "resolving", "Matrix": "no-resolve"}.get(h)
+        return {"Date": "resolving", "Rectangle": "resolving", "Matrix": "resolving"}.get(h)
     return None
 
 
@@ -123,7 +133,7 @@ def cases_for(rng, sidx, tier):
     rwt = s["read"] and s["write"]
     fields = [f for f in s["fields"] if not f["flags"] & 5]
     for f in fields:
-        G = T.Gen(S(), rng)
+        G = gen(rng)
         opt = f["ty"][0] == 20
         inner = f["ty"][1:] if opt else f["ty"]
         cls = holder_class(G, inner)
@@ -141,24 +151,35 @@ def cases_for(rng, sidx, tier):
         if tier == "quick":
             combos = rng.sample(combos, min(len(combos), 3 if opt else 2))
         for kind, holder, o in combos:
-            G = T.Gen(S(), rng)
+            G = gen(rng)
             d = G.struct(sidx, force={f["name"]: False}, extras=False)
             model = not T.required_unmodelled(G, sidx) and G.modelled([30, sidx])
             data, mentries, size, nums = build_file(G.objs)
             ref = Ref(nums[kind], 0)
             planted = ref if holder == "field" else [ref]
-            if holder == "element" and rng.random() < 0.5:
-                v = G.prim(inner[1:], 3, allow_ref=False)
-                if v is not None and not isinstance(v, (list, Ref)):
-                    planted = [v, ref]
-            head = [o.encode(), name.encode(), canon(d), f["key"].encode(), canon(planted)]
+            keyf = f["key"].encode()
+            if holder != "field":
+                # array elements: the comparison dictionary carries the array without the planted element (the element
+                # type never reads the null object in the declared models; were it an Option, null would stay in place)
+                ety = inner[1:] if opt else f["ty"][1:]
+                others = []
+                if rng.random() < 0.6:
+                    for _ in range(rng.choice([1, 1, 2])):
+                        v = G.prim(ety, 3, allow_ref=False)
+                        if v is not None and not isinstance(v, (list, Ref)):
+                            others.append(v)
+                pos = rng.randrange(len(others) + 1)
+                planted = others[:pos] + [ref] + others[pos:]
+                alt = others[:pos] + ([None] if ety[0] == 20 else []) + others[pos:]
+                keyf = keyf + b"=" + canon(alt)
+            head = [o.encode(), name.encode(), canon(d), keyf, canon(planted)]
             tags = ["struct:" + name, "kind:" + kind, "holder:" + holder, "opts:" + o, "class:" + cls]
             indirect = [g["key"] for g in fields if g["flags"] & 2]
             if opt and holder in ("field", "element"):
                 chk = check_optional(cls if holder == "field" else "resolving", rwt, indirect)
                 tags.append("optional")
             elif holder == "element-required":
-                chk = check_optional("resolving", rwt)
+                chk = check_optional("resolving", rwt, indirect)
                 tags.append("container-element")
             else:
                 if cls != "resolving":
@@ -187,22 +208,16 @@ def same(a, b):
 
 
 def classify(case, impl, model):
-    if "class:no-resolve" in case.tags and "optional" in case.tags and "opts:s" in case.tags:
-        return "C18-c"
-    if "container-element" in case.tags:
-        return "C18-b"
-    return None
+    return None          # C18-b and C18-c are repaired; no open class
 
 
 def witness_case(f, c):
     if f["id"] == "C18-a":
         c.check = check_optional("resolving", True)
-    elif f["id"] == "C18-b":
+    elif f["id"].startswith("C18-b"):
         c.check = check_optional("resolving", True)
-        c.tags.add("container-element")
-    elif f["id"] == "C18-c":
+    elif f["id"] in ("C18-c", "C18-d"):
         c.check = check_optional("resolving", True)
-        c.tags |= {"class:no-resolve", "optional", "opts:s"}
     return c
 
 
